@@ -123,7 +123,11 @@ type Reg struct {
 	}
 }
 
-func (e *Env) Open() (*Reg, error) {
+func (e *Env) Open() (*Reg, error) { return e.OpenMode(true) }
+
+// OpenMode(false) is a read-only registry (readWrite=false: segment files opened O_RDONLY), what
+// every non-writing transaction uses.
+func (e *Env) OpenMode(rw bool) (*Reg, error) {
 	// a fresh cache per registry object; the default pre-sizes 2 x 256 shards x 1000 entries,
 	// far more than the handful of keys used here
 	cache.DefaultInMemoryCacheShardCapacity = 16
@@ -132,17 +136,22 @@ func (e *Env) Open() (*Reg, error) {
 	if err != nil {
 		return nil, err
 	}
-	return &Reg{R: fs.NewRegistry(true, e.HashMod, rt, c)}, nil
+	return &Reg{R: fs.NewRegistry(rw, e.HashMod, rt, c)}, nil
 }
 
 // Get looks one id up with a fresh registry. class: "found" | "notfound" | "err".
 func (e *Env) Get(ctx context.Context, id sop.UUID) (h sop.Handle, class string, err error) {
+	return e.GetMode(ctx, id, true)
+}
+
+// GetMode(…, false) looks the id up through a read-only registry.
+func (e *Env) GetMode(ctx context.Context, id sop.UUID, rw bool) (h sop.Handle, class string, err error) {
 	defer func() {
 		if p := recover(); p != nil {
 			class, err = "panic", fmt.Errorf("panic: %v", p)
 		}
 	}()
-	r, err := e.Open()
+	r, err := e.OpenMode(rw)
 	if err != nil {
 		return h, "err", err
 	}
